@@ -78,7 +78,7 @@ def updateFrom(options: RenderOptions) -> None:
     ''' Update specified (non-null) options.'''
     global callback # pylint: disable=global-variable-not-assigned
     # Install callback first to ensure option errors are logged.
-    if callback is not None:
+    if options.callback is not None:
         callback = options.callback
     setOption('reset', options.reset)  # Reset takes priority.
     # Install callback again in case it has been reset.
